@@ -159,16 +159,32 @@ Proof.
     simpl. rewrite (IH ws' eq_refl). reflexivity.
 Qed.
 
+Lemma variants_loop_prefix dn st : forall vs ws ok, variants_loop dn st vs = (ws, ok) ->
+  Forall2 (fun v w => variant_one dn st v = Some w) (firstn (length ws) vs) ws /\
+  (ok = true -> length ws = length vs) /\
+  (ok = false -> exists v, nth_error vs (length ws) = Some v /\ variant_one dn st v = None).
+Proof.
+  induction vs as [|v vs IH]; intros ws ok H; simpl in H.
+  - injection H as <- <-. repeat split; [constructor|discriminate].
+  - destruct (variant_one dn st v) eqn:V.
+    + destruct (variants_loop dn st vs) as [ws' ok'] eqn:L. injection H as <- <-.
+      destruct (IH ws' ok' eq_refl) as (F & T & N). cbn [length firstn]. repeat split.
+      * constructor; assumption.
+      * intro E. rewrite (T E). reflexivity.
+      * intro E. destruct (N E) as (v' & Hn & Hv). exists v'. split; assumption.
+    + injection H as <- <-. repeat split; [constructor|discriminate|].
+      intros _. exists v. split; [reflexivity|assumption].
+Qed.
+
 Lemma variants_count_fixed dn st vs :
   let r := variants_layout fixed dn st vs in
-  v_count r = length (v_written r) /\
-  (v_raised r = false -> v_count r = length vs /\ variants_loop dn st vs = (v_written r, true)) /\
-  (v_raised r = true -> v_written r = [] /\ exists ws, variants_loop dn st vs = (ws, false)).
+  v_count r = length (v_written r) /\ v_raised r = false /\
+  exists ok, variants_loop dn st vs = (v_written r, ok).
 Proof.
   unfold variants_layout. destruct (variants_loop dn st vs) as [ws ok] eqn:L.
   destruct ok; cbn [fix_variants fixed v_count v_written v_raised].
-  - pose proof (variants_loop_count _ _ _ _ L). repeat split; try congruence.
-  - repeat split; try discriminate; try congruence. exists ws. reflexivity.
+  - pose proof (variants_loop_count _ _ _ _ L). repeat split; try congruence. exists true. reflexivity.
+  - repeat split. exists false. reflexivity.
 Qed.
 
 Lemma variants_loop_each dn st : forall vs ws, variants_loop dn st vs = (ws, true) ->
